@@ -49,6 +49,11 @@ CHECKS = {
    text="Stores from seeded histories (all selector kinds, begin- and end-aligned offsets, 1-4 byte text, texts up to 120 codepoints so that the automatic mode takes both branches) are protected in each mode; every text-selecting annotation must validate, also after adding annotations and protecting again (possibly in another mode) and after a save and reload; then 10 (20) substitutions, insertions and deletions placed before, inside, at the edges of and after selections are applied to the serialised text, the store is reloaded and an annotation must be reported invalid exactly when its selected characters changed. Held on the stores and edits observed.",
    note="Trusted: text_join of the stores (C04/C05) as the definition of the selected characters. Edited serialisations that no longer load (offset beyond the shortened text) are counted and skipped; stand-off text files are not edited, only inline text.",
    ref="5/C18"),
+ "C19": dict(
+   technique="runtime monitoring with process isolation: mutated serialisations are loaded in a child process under RLIMIT_AS / RLIMIT_CPU and a wall-clock watchdog, each input under catch_unwind; the parent attributes signals, exit status and stalls to single inputs; every store a loader returns goes through the dump self-consistency checker (C01-C03), the canonical observation and re-serialisation",
+   text="Valid STAM JSON, STAM CSV and CBOR serialisations of stores from seeded histories are mutated (line-wise JSON edits incl. extreme numbers, temporary ids with extreme numbers, @type swaps, rewired references, retyped values, truncation; CSV cell edits in manifest, annotation and dataset files; CBOR truncation at every short length, bit flips, length bytes) and loaded through from_str / from_file, AnnotationBuilder::from_json_str, annotate_from_file, AnnotationDataSet::from_file, plus hostile strings for the Cursor / Type / SelectorKind / DataFormat parsers. No input may panic, abort, exceed the CPU limit or stall, and an accepted store must be self-consistent. Held on the inputs observed except two recorded findings.",
+   note="Trusted: dumpcheck.rs. The memory bound is the child's RLIMIT_AS (3 GiB): allocations below it that are driven by a number in the input are not noticed. Time proportional to the input is judged with 2 s + 1 ms/byte per input.",
+   ref="5/C19"),
  "C15": dict(
    technique="runtime monitoring: round-trip differential on stores reached by seeded histories through the STAM CSV files (manifest, annotations table, dataset tables, .txt resources) - canonical observation with values reduced to their text",
    text="Final states of seeded histories (all selector kinds incl. complex selectors with mixed and range-compressed sub-selectors, end-aligned and relative offsets, gaps, ids without ';') are saved as STAM CSV and loaded again; resources and texts, keys, data ids and value text, annotation ids, data references, targets (kinds, referenced items, absolute ranges, selected text) and every reverse lookup must be equal. Held on the stores observed; the two temp-id findings are recorded.",
